@@ -290,7 +290,7 @@ func doMinimise(path string, race bool, maxTries int, budget uint64) int {
 			cmd.Stdout = nil
 			cmd.Run()
 			rr := sim.ParseRace(eb.String())
-			if rr == nil || rr.Signature() != rf.Signature {
+			if !sim.SameRace(rf.Signature, rr) {
 				return false
 			}
 			lastRace = rr
